@@ -21,16 +21,27 @@ KIND_WHAT = {
     "panic-or-hang": "endpoint panicked or did not return",
 }
 CASE_FIELDS = ("id", "vers", "suite", "key", "scen", "cscen", "ckey", "auth")
+HIST_FIELDS = ("id", "vers", "key", "steps")
+KIND_WHAT["verifying-client-resumed-unverified-session"] = "a verifying client completed by resuming a session whose chain does not verify under its settings (e.g. established with InsecureSkipVerify)"
+KIND_WHAT["good-step-failed"] = "a connection of a history that had to complete failed"
+KIND_WHAT["disagreement"] = "client and server disagree on DidResume"
 
 
 def sig_of(f):
-    return {k: f[k] for k in ("kind", "vers", "scen", "cscen", "auth", "kx", "key") if k in f}
+    return {k: f[k] for k in ("kind", "vers", "scen", "cscen", "auth", "kx", "key", "step", "skip", "resumed", "origin_skip") if k in f}
 
 
 def to_cands(records, rejects):
     cands = []
     for idx, facts in rejects:
         rec = records[idx]
+        if "steps" in rec:
+            o = rec["obs"][facts["step"] - 1]
+            what = "%s (history TLS 1.%d: steps %s; step %d: client done=%s resumed=%s from step %d, relied chain verifies=%s, err=%r)" % (
+                KIND_WHAT.get(facts["kind"], facts["kind"]), rec["vers"] - 10, json.dumps(rec["steps"]), facts["step"], o["cdone"],
+                o["cres"], o["origin"], o["relied_ok"], o["cerr"][:90])
+            cands.append({"sig": sig_of(facts), "what": what, "case": {k: rec[k] for k in HIST_FIELDS}})
+            continue
         what = "%s (TLS 1.%d suite %s key %s, server scenario %s, client scenario %s, ClientAuthType %d; client done=%s err=%r; server done=%s err=%r)" % (
             KIND_WHAT.get(facts["kind"], facts["kind"]), rec["vers"] - 10, rec["suite"], rec["key"], rec["scen"], rec["cscen"],
             rec["auth"], rec["obs"]["cdone"], rec["obs"]["cerr"][:90], rec["obs"]["sdone"], rec["obs"]["serr"][:90])
@@ -39,16 +50,25 @@ def to_cands(records, rejects):
 
 
 def run_cases(ctx, binary, cases, tag):
-    cpath, opath = ctx.path("c27_cases_%s.ndjson" % tag), ctx.path("c27_obs_%s.ndjson" % tag)
-    write_ndjson(cpath, cases)
-    ctx.run(binary, ["run", cpath, opath], timeout=3000)
-    recs = read_ndjson(opath)
-    if len(recs) != len(cases):
-        raise Machinery("harness c27 run produced %d records for %d cases" % (len(recs), len(cases)))
-    return recs
+    """scenario cases and multi-step histories (recognised by their `steps`) in one call"""
+    out = {}
+    for kind, cmd in (("s", "run"), ("h", "runh")):
+        part = [c for c in cases if ("steps" in c) == (kind == "h")]
+        if not part:
+            continue
+        cpath, opath = ctx.path("c27_cases_%s_%s.ndjson" % (tag, kind)), ctx.path("c27_obs_%s_%s.ndjson" % (tag, kind))
+        write_ndjson(cpath, part)
+        ctx.run(binary, [cmd, cpath, opath], timeout=3000)
+        recs = read_ndjson(opath)
+        if len(recs) != len(part):
+            raise Machinery("harness c27 %s produced %d records for %d cases" % (cmd, len(recs), len(part)))
+        for c, r in zip(part, recs):
+            out[id(c)] = r
+    return [out[id(c)] for c in cases]
 
 
 def selftest_records(records):
+    records = [r for r in records if "steps" not in r]
     bad_server = [r for r in records if r["scen"] in ("WrongKey", "Expired", "CorruptSKXSig") and not r["obs"]["cdone"]]
     bad_client = [r for r in records if r["scen"] == "Trusted" and r["cscen"] == "ClientUntrusted" and r["auth"] == 4 and not r["obs"]["sdone"]]
     good = [r for r in records if r["scen"] == "Trusted" and r["cscen"] == "ClientTrusted" and r["obs"]["cdone"] and r["obs"]["sdone"]]
@@ -66,6 +86,20 @@ def selftest_records(records):
     return out
 
 
+def selftest_hist(hrecs):
+    """a history in which the verifying second step did a full handshake: pretend it resumed the
+    unverified session of step 1 - must be rejected"""
+    for r in hrecs:
+        s, o = r["steps"], r["obs"]
+        if len(s) == 2 and s[0]["skip"] and s[0]["scert"] == "B" and not s[1]["skip"] and s[1]["scert"] == "B" and not o[1]["cdone"] \
+                and s[0]["name"] == s[1]["name"] == "dns" and s[0]["time"] == s[1]["time"] == "now":
+            c = copy.deepcopy(r)
+            c["id"] = -5
+            c["obs"][1].update({"cdone": True, "sdone": True, "dataok": True, "cres": True, "sres": True, "origin": 1, "relied_ok": False})
+            return [c]
+    return []
+
+
 def run(ctx):
     quick = ctx.quick
     binary = ctx.gobuild("c27")
@@ -76,7 +110,13 @@ def run(ctx):
     if min(st[1:4]) == 0:
         raise Machinery("generator: a demand class is empty (vacuous): %s" % st)
     ctx.add_samples([cases[len(cases) // 2]], n=1)
+    hcases = read_ndjson(ctx.specfile("c27h_cases.ndjson"))
+    if not hcases:
+        raise Machinery("generator: no authentication history")
+    for c in hcases:
+        c["id"] += 2 * 10 ** 6
     recs = run_cases(ctx, binary, cases, "gen")
+    hrecs = run_cases(ctx, binary, hcases, "hist")
 
     nrand = 1500 if quick else 30000
     rpath = ctx.path("c27_random.ndjson")
@@ -86,8 +126,8 @@ def run(ctx):
         c["id"] += 10 ** 6
     rrecs = run_cases(ctx, binary, rcases, "rand")
 
-    allrecs = recs + rrecs
-    st_recs = selftest_records(allrecs)
+    allrecs = recs + rrecs + hrecs
+    st_recs = selftest_records(allrecs) + selftest_hist(hrecs)
     rejects = T.judge(ctx, "C27", allrecs + st_recs)
     if len([i for i, _ in rejects if i >= len(allrecs)]) != len(st_recs):
         raise Machinery("binding self-test: a corrupted record was accepted - the judge constrains nothing")
@@ -95,11 +135,26 @@ def run(ctx):
     mism = [f for _, f in rejects if f["kind"] == "harness-pki-mismatch"]
     if mism:
         raise Machinery("the standard library disagrees with %d scenario concretisations, e.g. %s" % (len(mism), mism[0]))
-    if len(st_recs) < 4 and not rejects:
+    if len(st_recs) < 5 and not rejects:
         raise Machinery("selftest: missing base records and nothing rejected (vacuous)")
     cands = to_cands(allrecs, rejects)
     ctx.candidates(binary, cands, reproduce=T.BatchReproducer(ctx, "C27", cands, lambda cs: run_cases(ctx, binary, cs, "repro")))
 
+    hist_cov = {"histories": len(hrecs),
+                "resumed_verified": sum(1 for r in hrecs for st, o in zip(r["steps"], r["obs"]) if not st["skip"] and o["cres"] and o["cdone"]),
+                "refused_unverified_session": sum(1 for r in hrecs if len(r["steps"]) >= 2 and r["steps"][0]["skip"] and r["obs"][0]["cdone"]
+                                                  and not r["steps"][1]["skip"] and not r["obs"][1]["cres"]
+                                                  and r["steps"][0]["name"] == r["steps"][1]["name"]),
+                "resumed_nonverifying": sum(1 for r in hrecs for st, o in zip(r["steps"], r["obs"]) if st["skip"] and o["cres"])}
+    for k, v in hist_cov.items():
+        if not v:
+            raise Machinery("vacuous coverage of authentication histories: %s" % hist_cov)
+    names = {}
+    for r in recs:
+        if r["scen"].startswith("Name"):
+            names[r["scen"]] = names.get(r["scen"], 0) + 1
+    if len(names) < 6:
+        raise Machinery("server-name classes missing: %s" % names)
     fired = {}
     for r in recs:
         if r["fired"]:
@@ -107,10 +162,12 @@ def run(ctx):
     for w in ("CorruptSKXSig", "CorruptSKXParams", "CorruptServerFinished", "CorruptClientFinished", "CorruptClientCV"):
         if fired.get(w, 0) < 5:
             raise Machinery("wire scenario %s fired only %d times (vacuous)" % (w, fired.get(w, 0)))
+    srecs = recs + rrecs
     cov = {
-        "completed": sum(1 for r in allrecs if r["obs"]["cdone"] and r["obs"]["sdone"]),
-        "client_refused": sum(1 for r in allrecs if not r["obs"]["cdone"] and (not r["std"]["server_chain_ok"] or not r["std"]["server_key_ok"])),
-        "server_refused": sum(1 for r in allrecs if not r["obs"]["sdone"] and r["scen"] == "Trusted" and r["cscen"] not in ("NoClientCert", "ClientTrusted")),
+        "histories": hist_cov, "server_name_classes": names,
+        "completed": sum(1 for r in srecs if r["obs"]["cdone"] and r["obs"]["sdone"]),
+        "client_refused": sum(1 for r in srecs if not r["obs"]["cdone"] and (not r["std"]["server_chain_ok"] or not r["std"]["server_key_ok"])),
+        "server_refused": sum(1 for r in srecs if not r["obs"]["sdone"] and r["scen"] == "Trusted" and r["cscen"] not in ("NoClientCert", "ClientTrusted")),
         "wire_corruptions_fired": fired,
         "versions": sorted({r["vers"] for r in recs}),
     }
@@ -119,8 +176,8 @@ def run(ctx):
     ctx.cov["observations"] = cov
     ctx.cov["evaluations"] += len(allrecs)
     ctx.cov["traces_validated_against_impl"] += len(allrecs)
-    ctx.cov["distinct_nontrivial"] += len({json.dumps([r[k] for k in CASE_FIELDS[1:]], sort_keys=True) for r in allrecs
-                                           if r["scen"] != "Trusted" or r["cscen"] != "NoClientCert" or r["auth"]})
+    ctx.cov["distinct_nontrivial"] += len({json.dumps([r[k] for k in CASE_FIELDS[1:]], sort_keys=True) for r in srecs
+                                           if r["scen"] != "Trusted" or r["cscen"] != "NoClientCert" or r["auth"]}) + len(hrecs)
     ctx.cov["exhaustive"] = not quick
     ctx.cov["rule"] = ("scenario = (version, suite/key-exchange class, server key type, server scenario, client scenario, client "
                        "key type, ClientAuthType); %s; non-trivial = anything but (Trusted, NoClientCert, NoClientCert mode); plus "
@@ -135,8 +192,8 @@ def replay(ctx, path):
     binary = ctx.gobuild("c27")
     T.write_facts(ctx, binary)
     out = ctx.path("one.ndjson")
-    ctx.run(binary, ["run-one", path, out])
     body = json.load(open(path))
+    ctx.run(binary, ["runh-one" if "steps" in body.get("case", {}) else "run-one", path, out])
     rej = T.judge(ctx, "C27", read_ndjson(out))
     again = any(f.get("kind") == body.get("sig", {}).get("kind") for _, f in rej)
     for _, f in rej:
